@@ -10,4 +10,4 @@ EXPLANATION = ""
 LEVEL_TEXT = "Deductive proof of the statement shape (loop invariant on the text), of sql_fields (one tuple per field, quoting, empty flag), of the integer magnitude and of each dialect's type ladder against capacities for all integers; decimal digits from DecimalRange.__init__'s running maxima."
 LEVEL_NOTE = "Trusts the pyvc encoding, z3/cvc5; regions of recorded finding K-8 are excluded by explicit predicates (listed in the evidence) and replayed by witnesses."
 TECHNIQUE = "contract-based deductive verification (VCs from the ast of the real functions, z3/cvc5) + bounded boundary table"
-UNITS = [SQ.unit_integer_sql_ansi_type(), SQ.unit_dialect_sql_type(), SQ.unit_sql_fields(), SQ.unit_is_keyword(), SQ.unit_create_table_statement(), SQ.unit_c19_table(), TOK.unit_sweep_decimal_text()] + RD.units_decimal_range_init()
+UNITS = [SQ.unit_integer_sql_ansi_type(), SQ.unit_other_sql_ansi_types(), SQ.unit_assert_is_valid_ansi_type(), SQ.unit_dialect_sql_type(), SQ.unit_sql_fields(), SQ.unit_is_keyword(), SQ.unit_create_table_statement(), SQ.unit_c19_table(), TOK.unit_sweep_decimal_text()] + RD.units_decimal_range_init()
